@@ -91,7 +91,8 @@ def _gen_read_timeout(rng, tier):
         tag = 8500000 + i * 10
         slow = [["recv_until_end"], ["sleep", delay], ["respond", 200, [(b"x-tag", b"%d" % tag)], b"slow-%d" % tag]]
         quick = [["recv_until_end"], ["respond", 200, [(b"x-tag", b"%d" % (tag + 1))], b"quick-%d" % (tag + 1)]]
-        base = {"backends": ["asyncio", "trio"], "config": {"keep_alive_timeout": 5000, "read_timeout": rt}, "conn": {},
+        # read_timeout = 0 now and then (with the same client timing): whatever a zero means, it means it on both workers
+        base = {"backends": ["asyncio", "trio"], "config": {"keep_alive_timeout": 5000, "read_timeout": 0 if i % 8 == 7 else rt}, "conn": {},
                 "sched": {"seed": rng.randrange(1 << 30)}, "horizon": 100.0, "source": "c16",
                 "apps": {"default": quick, "by_tag": {str(tag): slow, str(tag + 1): quick}}}
         shape = rng.choice(["h1.pipelined", "h1.pipelined", "h1.sequential", "h2.two", "h1.idle-then-request"])
